@@ -7,6 +7,10 @@ import (
 	"strings"
 
 	oracletypes "github.com/tellor-io/layer/x/oracle/types"
+
+	"cosmossdk.io/collections"
+
+	sdk "github.com/cosmos/cosmos-sdk/types"
 )
 
 // ---- C06: the aggregate is the weighted median / weighted mode by definition ----
@@ -36,6 +40,12 @@ func checkAggregate(l *LabCtx, method string, reports []oracletypes.MicroReport,
 		}
 		l.Violate("C06", "c06", method+":"+sig, d)
 	}
+	return aggregateDefects(method, reports, agg, err, fail)
+}
+
+// aggregateDefects is the definition-level oracle shared by the lab (direct calls) and the chain monitor (aggregates the
+// EndBlocker stored): fail is called for every clause of C06 the aggregate violates.
+func aggregateDefects(method string, reports []oracletypes.MicroReport, agg *oracletypes.Aggregate, err error, fail func(sig string, extra map[string]interface{})) (value string, ok bool) {
 	if err != nil || agg == nil {
 		fail("error-on-valid-input", map[string]interface{}{"err": fmt.Sprint(err)})
 		return "", false
@@ -343,4 +353,82 @@ func init() {
 		One:     c06One,
 		Once:    c06Once,
 	})
+}
+
+// ---- C06 on the chain: every aggregate the oracle EndBlocker stores is judged against the reports of its round ----
+
+type C06ChainMonitor struct {
+	BaseMonitor
+	st *Stats
+}
+
+func NewC06ChainMonitor(st *Stats) *C06ChainMonitor { return &C06ChainMonitor{st: st} }
+func (m *C06ChainMonitor) Name() string             { return "c06chain" }
+
+func (m *C06ChainMonitor) EndBlockExit(c *Chain, ctx sdk.Context, err error) {
+	if err != nil {
+		return
+	}
+	h := uint64(ctx.BlockHeight())
+	aggs := c.App.OracleKeeper.GetAggregatedReportsByHeight(ctx, h)
+	nWithReports := 0
+	for _, agg := range aggs {
+		if len(agg.Reporters) > 0 {
+			nWithReports++
+		}
+	}
+	for i := range aggs {
+		agg := aggs[i]
+		if len(agg.Reporters) == 0 {
+			continue // bridge withdrawal aggregate written by a transaction
+		}
+		var reports []oracletypes.MicroReport
+		_ = c.App.OracleKeeper.Reports.Walk(ctx, collections.NewPrefixedTripleRange[[]byte, []byte, uint64](agg.QueryId), func(k collections.Triple[[]byte, []byte, uint64], r oracletypes.MicroReport) (bool, error) {
+			if k.K3() == agg.MetaId {
+				reports = append(reports, r)
+			}
+			return false, nil
+		})
+		if len(reports) == 0 {
+			continue
+		}
+		// the method of the query's type, as recorded in the reports when they were accepted
+		method := ""
+		mixed := false
+		for _, r := range reports {
+			mm := "mode"
+			if r.AggregateMethod == "weighted-median" {
+				mm = "median"
+			}
+			if method != "" && mm != method {
+				mixed = true
+			}
+			method = mm
+		}
+		if mixed {
+			m.st.Count("c06chain.method-changed-within-round-skipped")
+			continue
+		}
+		m.st.Count("c06chain.aggregate.evals")
+		m.st.Bucket("c06chain|%s|reports=%d|aggregates-in-block=%d|position=%d", method, minInt(len(reports), 4), minInt(nWithReports, 3), minInt(i, 2))
+		fail := func(sig string, extra map[string]interface{}) {
+			d := map[string]interface{}{"method": method, "reports": describeReports(reports), "query_id": fmt.Sprintf("%x", agg.QueryId), "meta_id": agg.MetaId, "aggregates_in_block": nWithReports}
+			for k, v := range extra {
+				d[k] = v
+			}
+			c.Violate("C06", "c06chain", "stored-aggregate:"+method+":"+sig, d)
+		}
+		if method == "median" {
+			numeric := valNum(agg.AggregateValue) != nil
+			for _, r := range reports {
+				numeric = numeric && valNum(r.Value) != nil
+			}
+			if !numeric {
+				m.st.Count("c06chain.non-numeric-median-round-skipped")
+				continue
+			}
+		}
+		a := agg
+		aggregateDefects(method, reports, &a, nil, fail)
+	}
 }
